@@ -31,7 +31,8 @@ def _names(s):
         names = names[:-1] + ['axis']
     return names
 SCALARS = [0, 1, 2, 3, 5, 13, 's', 't', None, -1, -2]      # hash(-1) == hash(-2) in CPython: distinct arguments, equal hashes
-CONTAINERS = [[1, 2], [], {'k': [1]}, [[3]], {'p': 1, 'q': 2}]
+CONTAINERS = [[1, 2], [], {'k': [1]}, [[3]], {'p': 1, 'q': 2}, {'odict': [['p', 1], ['q', 2]]}, {'odict': [['q', 3], ['p', 1]]}, {'pdict': [['k', 5]]},
+              {'pdict': [['k', 6]]}, {'odict': [['k', [1]]]}]      # mappings of other classes than dict: an argument like any other
 TRY_VALUES = ['none', 'nan', 'zero', 'false', 'true', 'list', 'dict']
 POOL = 8
 
@@ -46,12 +47,23 @@ class _Ref:
 
 
 def _enc(v):
-    return {'ref': v.k} if isinstance(v, _Ref) else enc(v)
+    if isinstance(v, _Ref):
+        return {'ref': v.k}
+    if isinstance(v, dict) and set(v) in ({'odict'}, {'pdict'}):
+        (kind, items), = v.items()
+        return {kind: [[k, enc(x)] for k, x in items]}
+    return enc(v)
 
 
 def _dec(v, pool):
     if isinstance(v, dict) and 'ref' in v:
         return pool[v['ref'] % len(pool)]
+    if isinstance(v, dict) and set(v) == {'odict'}:
+        import collections
+        return collections.OrderedDict((k, dec(x)) for k, x in v['odict'])
+    if isinstance(v, dict) and set(v) == {'pdict'}:
+        from pyg_base import Dict
+        return Dict({k: dec(x) for k, x in v['pdict']})
     return dec(v)
 
 
